@@ -605,7 +605,7 @@ func (g *gen) equalVals(a, b *Val, t types.Type) *Term {
 		for _, pr := range [][2]*Val{{a, b}, {b, a}} {
 			x, y := pr[0], pr[1]
 			if bv, ok := g.boxed[y.L[0].id]; ok && len(bv.L) == 1 {
-				if _, basic := bv.T.Underlying().(*types.Basic); basic {
+				if bt, basic := bv.T.Underlying().(*types.Basic); basic && bt.Info()&(types.IsFloat|types.IsComplex) == 0 {
 					ls := leavesOf(bv.T)
 					if len(ls) == 1 {
 						rhs := And(Neq(x.L[0], Int(0)), Eq(ifaceTag(x.L[0]), tagOf(bv.T)), Eq(App(unboxName(bv.T, ls[0].Path), ls[0].Sort(), x.L[0]), bv.L[0]))
@@ -923,10 +923,19 @@ func (g *gen) mapRead(st *State, m *Term, mt *types.Map, key *Term) (has *Term, 
 	if p, ok := vt.Underlying().(*types.Pointer); ok {
 		v.Addr = &AddrInfo{Root: p.Elem(), Known: true}
 	}
-	g.assume(st, Implies(has, rangeFacts(v)))
+	// type facts of what was read; inside a contract quantifier the key may
+	// mention the bound variable, so the facts go where the evaluator collects them
+	fact := func(f *Term) {
+		if g.factCapture != nil {
+			*g.factCapture = append(*g.factCapture, f)
+		} else {
+			g.assume(st, f)
+		}
+	}
+	fact(Implies(has, rangeFacts(v)))
 	for i, l := range ls {
 		if l.Kind == LKRef || l.Kind == LKSliceArr {
-			g.assume(st, Implies(has, Le(v.L[i], st.wm)))
+			fact(Implies(has, Le(v.L[i], st.wm)))
 		}
 	}
 	return has, v
